@@ -575,7 +575,8 @@ impl Range {
     }
 
     fn from_min_max(min: f64, max: f64) -> Result<Self> {
-        if min > max {
+        // The negated comparison also catches NaN values that cannot be ordered
+        if !(min <= max) {
             Error::invalid(format!("Found invalid range: min={min}, max={max}"))?;
         }
         // Infinite limits are replaced by the biggest finite values to keep the normalization well-defined
